@@ -772,7 +772,8 @@ def detrend_1d(arr: np.ndarray) -> np.ndarray:
 
     x_sum = m * (m - 1) / 2
     y_sum = 0.0
-    x_sq_sum = m * (m - 1) * (2 * m - 1) / 6
+    # x_sum is a float: the integer product m(m-1)(2m-1) would wrap for m > 1.6e6
+    x_sq_sum = x_sum * (2 * m - 1) / 3
     x_y_sum = 0.0
 
     for i in range(m):
